@@ -17,6 +17,10 @@ def raw_examples(n, variant='A', offset=0):
     ex['h'] = (ids[:, None, None] * np.ones((1, 2, 2), np.float16)).astype(np.float16)
     ex['e'] = np.zeros((n, 2, 0), np.float32)
     ex['i8'] = (ids % 100).astype(np.int8)
+    # fixed-width bytes / str features (their "zero" is the empty string) and a complex one
+    ex['s'] = np.array([b'w%d' % (i % 50) for i in ids], dtype='S4')
+    ex['u'] = np.array(['t%d' % (i % 7) for i in ids], dtype='U3')
+    ex['c'] = (ids + 1j * (ids % 3)).astype(np.complex64)
   return ex
 
 
@@ -98,7 +102,8 @@ def check_batch(batch, ref, mask_key='__mask__', base=0):
         if not (0 <= i < ref[k].shape[0]) or not np.array_equal(v[r], ref[k][i]):
           feat_ok = False
       else:
-        if v[r].size and np.any(v[r] != 0):
+        zero = v.dtype.type() if v.dtype.kind in 'SU' else 0     # the zero of a string dtype is the empty string
+        if v[r].size and np.any(v[r] != zero):
           padzero = False
   out_ids = [int(ids[r]) if (r < mask_arr.shape[0] and mask_arr[r]) else 0 for r in range(rows)]
   if mask is not None and mask_arr.dtype != np.bool_:
